@@ -8,6 +8,9 @@ one of them.  Oracle (never calls the code under test): the reference value buil
   sent (defaults filled in when omitted) and the returned value equals the value sent;
 * value the declared type cannot represent → an exception on the client or an ``RpcError``; if the method *is*
   invoked / a result *is* returned, it must carry the very value that was sent (otherwise it was silently changed).
+
+Zoned timestamp parameters are also called with the same instant spelled at non-UTC offsets (+05:30, −05:00, +14:00 …):
+the value is the instant, so it must round-trip, and a sub-unit instant must still be refused.
 """
 
 from __future__ import annotations
